@@ -9,7 +9,7 @@ from vlib.runner import derive_seed
 PROPERTY = "C07"
 LEVEL = "exploration"
 BOUNDS = {"quick": dict(depth=10, sends=3, breaks=2, kinds=["eof"], logout=False),
-          "thorough": dict(depth=12, sends=3, breaks=3, kinds=["eof", "reset", "oserror", "drain"], logout=True)}
+          "thorough": dict(depth=11, sends=3, breaks=2, kinds=["eof", "reset", "oserror", "drain"], logout=True)}
 WALK = {"quick": 60, "thorough": 200}
 
 
